@@ -101,6 +101,7 @@ def run(ctx):
     rules_r5(ctx)
     rules_r6(ctx)
     rules_r7(ctx)
+    rules_r8(ctx)
 
 
 def run_thorough(ctx):
@@ -632,3 +633,42 @@ def rules_r7(ctx):
             else:
                 what = 'the condition of the statement itself' if cls == 'node' else 'the condition of each ELSIF branch (taken from the branch node)'
                 r7.bad(key, '%s does not pass %s through check_boolean: a program with an ill-typed condition there is accepted and the cycle fails with the static-class fault ConditionNotBool / UndefinedVariable' % (name, what), loc=fn.loc(0))
+
+
+# =====================================================================================
+def rules_r8(ctx):
+    """The interpreter follows POU calls on the native stack: unbounded recursion in the program would overflow it and
+    abort the process.  Every call entry point refuses to go deeper than a constant bound before it pushes anything."""
+    fx = ctx.fx
+    r8 = ctx.rule('C01.R8', 'POU call nesting is bounded: every call entry point tests call_depth against a constant before pushing a frame or executing the body', floor=3, floor_what='call entry points')
+    for name in ('call_function', 'call_method', 'call_function_block'):
+        rec = fx.fns.get(RT + 'eval::' + name)
+        if rec is None:
+            r8.bad('anchor-missing|%s' % name, 'evaluator entry point %s not found' % name)
+            continue
+        fn = F(rec)
+        r8.saw()
+
+        def pred(op, a, c, bb):
+            if op not in ('Ge', 'Gt', 'Lt', 'Le'):
+                return None
+            fa = place_fields(a[1]) if a[0] in ('c', 'm') else []
+            la = op_local(a)
+            src_fields = list(fa)
+            if la is not None:
+                for (b_, k_, rv_) in fn.defs.get(la, []):
+                    if k_ == 'A' and rv_[0] == 'use' and rv_[1][0] in ('c', 'm'):
+                        src_fields += place_fields(rv_[1][1])
+            if not any(f.endswith('EvalContext.call_depth') for f in src_fields):
+                return None
+            if c[0] != 'k':
+                return None
+            # the local is true when the depth is still allowed?
+            return op in ('Lt', 'Le')
+        seeds = compare_seeds(fn, pred)
+        pos, neg, _ = test_edges(fn, seeds) if seeds else (set(), set(), [])
+        sinks = fn.blocks_calling(lambda n: re.search(r'VariableStorage::push_frame\w*$|eval::stmt::exec_block$|eval::prepare_bindings$', n) is not None)
+        if pos and sinks and all(guarded(fn, b, pos) for b in sinks):
+            r8.ok('depth-gate|%s' % name, loc=fn.loc(sinks[0]))
+        else:
+            r8.bad('depth-gate|%s' % name, '%s pushes a frame / executes the callee body without first testing the call depth against a bound: a program that recurses (the checker accepts a FUNCTION calling itself) overflows the native stack and aborts the process instead of faulting' % name, loc=fn.loc(sinks[0]) if sinks else fn.loc(0))
